@@ -115,6 +115,8 @@ type Proto interface {
 	RespHash(s suiteT, r *NResp) []byte
 	Recover(s suiteT, ds []*NDeal, n, t uint32) (kyber.Scalar, error)
 	Tamper(e *NEnc, what string) *NEnc
+	// Splice: a with the signature of b ("sig"), or the ciphertext of a under the signed DH key of b ("dh")
+	Splice(a, b *NEnc, what string) *NEnc
 }
 
 // ------------------------------------------------------------------ pedersen
@@ -231,6 +233,18 @@ func (pedProto) Tamper(e *NEnc, what string) *NEnc {
 		c.Cipher[len(c.Cipher)/2] ^= 0x01
 	}
 	return &NEnc{ped: &c, Meta: e.Meta}
+}
+
+func (pedProto) Splice(a, b *NEnc, what string) *NEnc {
+	c := *a.ped
+	switch what {
+	case "sig":
+		c.Signature = append([]byte(nil), b.ped.Signature...)
+	case "dh":
+		c.DHKey = append([]byte(nil), b.ped.DHKey...)
+		c.Signature = append([]byte(nil), b.ped.Signature...)
+	}
+	return &NEnc{ped: &c, Meta: a.Meta}
 }
 
 // ------------------------------------------------------------------ rabin
@@ -353,6 +367,18 @@ func (rabProto) Tamper(e *NEnc, what string) *NEnc {
 		c.Cipher[len(c.Cipher)/2] ^= 0x01
 	}
 	return &NEnc{rab: &c, Meta: e.Meta}
+}
+
+func (rabProto) Splice(a, b *NEnc, what string) *NEnc {
+	c := *a.rab
+	switch what {
+	case "sig":
+		c.Signature = append([]byte(nil), b.rab.Signature...)
+	case "dh":
+		c.DHKey = b.rab.DHKey.Clone()
+		c.Signature = append([]byte(nil), b.rab.Signature...)
+	}
+	return &NEnc{rab: &c, Meta: a.Meta}
 }
 
 var _ = vh.Hex
